@@ -1,7 +1,7 @@
 (* Model/RtTypes.v -- the rich-text tree datatype shared by the C08 (richtext.py) and
    C09 (backends) models.  pybtex/richtext.py classes:
-     String(value) | Symbol(name) | Text(*parts) | Tag(name, *parts)
-     | HRef(url, *parts, external=False) | Protected(*parts) *)
+     String(value) | Symbol(name) | Text(parts...) | Tag(name, parts...)
+     | HRef(url, parts..., external=False) | Protected(parts...) *)
 From Pybtex Require Import Base.Prelude.
 
 Inductive rt : Type :=
